@@ -17,8 +17,9 @@ import obs
 import rt
 import c09
 
-ERRORS = {"default": ["ENOSPC", "EIO", "EACCES"], "mkdir": ["ENOSPC", "EACCES", "EEXIST", "ENOTDIR", "EIO"],
-          "openat": ["ENOSPC", "EACCES", "EMFILE", "EIO"], "read": ["EIO", "EACCES"], "close": ["EIO", "ENOSPC"],
+ERRORS = {"default": ["ENOSPC", "EIO", "EACCES"], "write": ["ENOSPC", "EINTR", "EIO", "EACCES", "EAGAIN", "EFBIG"],
+          "pwrite64": ["ENOSPC", "EINTR"], "mkdir": ["ENOSPC", "EACCES", "EEXIST", "ENOTDIR", "EIO"],
+          "openat": ["ENOSPC", "EACCES", "EMFILE", "EIO", "EINTR"], "read": ["EIO", "EINTR", "EACCES"], "close": ["EIO", "ENOSPC"],
           "unlink": ["EACCES", "EIO", "EBUSY"], "rmdir": ["EACCES", "EBUSY", "EIO"], "newfstatat": ["EACCES", "EIO"],
           "getdents64": ["EIO", "EACCES"]}
 
